@@ -24,6 +24,10 @@ type c26Job struct {
 	Backlog  int   `json:"backlog"`             // NewJob(taskBacklog)
 	DelayMix int   `json:"delay_mix,omitempty"` // which delay profile the task bodies use
 	Callback bool  `json:"callback,omitempty"`  // Done(f) with a completion callback
+	// Late jobs (only mode "par" with stop "conc", always after the regular jobs) are submitted by a second
+	// goroutine, one after the other after LateYields yields each, concurrently with Stop.
+	Late       bool `json:"late,omitempty"`
+	LateYields int  `json:"late_yields,omitempty"`
 }
 
 type c26Case struct {
@@ -46,7 +50,7 @@ func c26Shape(c c26Case) string {
 	var b strings.Builder
 	fmt.Fprintf(&b, "ser=%v w=%d mj=%d %s %s|", c.Serial, c.Workers, c.MaxJobs, c.Mode, c.Stop)
 	for _, j := range c.Jobs {
-		fmt.Fprintf(&b, "%d/%v/%d/%v;", j.Tasks, j.Fail, j.Backlog, j.Callback)
+		fmt.Fprintf(&b, "%d/%v/%d/%v/%v;", j.Tasks, j.Fail, j.Backlog, j.Callback, j.Late)
 	}
 	return b.String()
 }
@@ -79,6 +83,27 @@ type c26Obs struct {
 
 	mu     sync.Mutex
 	phases map[string]string // driver goroutine -> call it is currently inside ("" = none)
+	panics []string          // "<call>: <panic value>" of driver goroutines that panicked inside the code under test
+}
+
+// guard runs f (one driver goroutine's part of the scenario) and records a
+// panic together with the call into internal/workers it happened in.
+func (o *c26Obs) guard(g string, f func()) {
+	defer func() {
+		if p := recover(); p != nil {
+			o.mu.Lock()
+			o.panics = append(o.panics, fmt.Sprintf("%s: %v", o.phases[g], p))
+			o.phases[g] = ""
+			o.mu.Unlock()
+		}
+	}()
+	f()
+}
+
+func (o *c26Obs) panicked() []string {
+	o.mu.Lock()
+	defer o.mu.Unlock()
+	return append([]string(nil), o.panics...)
 }
 
 func (o *c26Obs) enter(g, call string) {
@@ -219,23 +244,44 @@ func c26Drive(c c26Case, o *c26Obs) {
 		}
 	case "par":
 		for ji := range c.Jobs {
-			newJob(drv, ji)
+			if !c.Jobs[ji].Late {
+				newJob(drv, ji)
+			}
 		}
-		var stopDone <-chan struct{}
+		var stopDone, lateDone <-chan struct{}
 		if c.Stop == "conc" {
 			y := c.StopYields
 			stopDone = kit.Go(func() {
-				for k := 0; k < y; k++ {
-					runtime.Gosched()
+				o.guard("stopper", func() {
+					for k := 0; k < y; k++ {
+						runtime.Gosched()
+					}
+					stop("stopper")
+				})
+			})
+			lateDone = kit.Go(func() {
+				for ji := range c.Jobs {
+					if !c.Jobs[ji].Late {
+						continue
+					}
+					ji := ji
+					o.guard("late", func() {
+						for k := 0; k < c.Jobs[ji].LateYields; k++ {
+							runtime.Gosched()
+						}
+						if newJob("late", ji) {
+							fill("late", ji)
+							wait("late", ji)
+						}
+					})
 				}
-				stop("stopper")
 			})
 		}
 		var wg sync.WaitGroup
 		filled := make([]chan struct{}, len(c.Jobs))
 		for ji := range c.Jobs {
 			filled[ji] = make(chan struct{})
-			if !o.jobs[ji].created {
+			if c.Jobs[ji].Late || !o.jobs[ji].created {
 				close(filled[ji])
 				continue
 			}
@@ -244,12 +290,14 @@ func c26Drive(c c26Case, o *c26Obs) {
 			g := fmt.Sprintf("job%d", ji)
 			go func() {
 				defer wg.Done()
-				fill(g, ji)
-				close(filled[ji])
-				if c.Stop == "mid" {
-					return // waited by the driver after Stop
-				}
-				wait(g, ji)
+				o.guard(g, func() {
+					fill(g, ji)
+					close(filled[ji])
+					if c.Stop == "mid" {
+						return // waited by the driver after Stop
+					}
+					wait(g, ji)
+				})
 			}()
 		}
 		if c.Stop == "mid" {
@@ -266,6 +314,7 @@ func c26Drive(c c26Case, o *c26Obs) {
 		wg.Wait()
 		if stopDone != nil {
 			<-stopDone
+			<-lateDone
 		}
 	}
 	if c.Stop == "end" {
@@ -281,7 +330,7 @@ func c26Drive(c c26Case, o *c26Obs) {
 }
 
 type c26Stats struct {
-	tasksRun, tasksSkipped, jobsShutdown, jobsFailed, jobsOK, jobOrderPairs int
+	tasksRun, tasksSkipped, jobsShutdown, jobsFailed, jobsOK, jobOrderPairs, lateRejected, lateAccepted int
 }
 
 // c26Judge is the offline oracle (only atomics / fields published by the
@@ -401,9 +450,23 @@ func c26Judge(c c26Case, o *c26Obs, finished bool) ([]c08Finding, c26Stats) {
 	if !finished || c.Serial {
 		return out, st
 	}
+	rejected := -1
 	for ji, jo := range o.jobs {
-		if !jo.created { // every NewJob of the scenario precedes the call of Stop
-			add("C26/newjob-error", "NewJob for job %d failed with %v before Stop was called", ji, jo.newJobErr)
+		switch {
+		case jo.created:
+			if c.Jobs[ji].Late {
+				st.lateAccepted++
+			}
+			if rejected >= 0 && c.Jobs[ji].Late {
+				add("C26/job-accepted-after-shutdown", "late job %d was accepted by NewJob although the earlier NewJob of job %d had already reported ErrShutdown", ji, rejected)
+			}
+		case c.Jobs[ji].Late && stopLo != 0 && errors.Is(jo.newJobErr, workers.ErrShutdown):
+			st.lateRejected++ // submitted while / after Stop: a future job
+			rejected = ji
+		case c.Jobs[ji].Late && jo.newJobErr == nil:
+			// its submitter panicked inside NewJob (reported separately)
+		default: // every other NewJob of the scenario precedes the call of Stop
+			add("C26/newjob-error", "NewJob for job %d failed with %v (stop called: %v)", ji, jo.newJobErr, stopLo != 0)
 		}
 	}
 	if o.futureTried {
@@ -472,7 +535,44 @@ func c26Gen(rng *rand.Rand) c26Case {
 		}
 		c.Jobs = append(c.Jobs, j)
 	}
+	if c.Stop == "conc" && rng.IntN(3) > 0 {
+		// jobs submitted concurrently with Stop
+		for k := 0; k < 1+rng.IntN(3); k++ {
+			j := c26Job{Tasks: rng.IntN(6), DelayMix: rng.IntN(len(c26Delays)), Late: true, LateYields: rng.IntN(300)}
+			if rng.IntN(2) == 0 {
+				j.LateYields = c.StopYields + rng.IntN(9) - 4
+				if j.LateYields < 0 {
+					j.LateYields = 0
+				}
+			}
+			j.Backlog = j.Tasks + 1
+			if j.Tasks > 0 && rng.IntN(4) == 0 {
+				j.Fail = []int{rng.IntN(j.Tasks)}
+			}
+			c.Jobs = append(c.Jobs, j)
+		}
+		c.MaxJobs = len(c.Jobs) + rng.IntN(4)
+	}
 	return c
+}
+
+// c26PoolGoroutines counts live goroutines of any ParallelWorkers pool
+// (workers and queue processors) in the process.
+func c26PoolGoroutines() (n int, parkedAll bool, dump string) {
+	buf := make([]byte, 16<<20)
+	buf = buf[:runtime.Stack(buf, true)]
+	parkedAll = true
+	var keep []string
+	for _, g := range strings.Split(string(buf), "\n\n") {
+		if strings.Contains(g, "ParallelWorkers).startWorker") || strings.Contains(g, "ParallelWorkers).processQueue") {
+			n++
+			keep = append(keep, g)
+			if !(strings.Contains(g, "[select") || strings.Contains(g, "[chan receive") || strings.Contains(g, "[chan send") || strings.Contains(g, "[sync.")) {
+				parkedAll = false
+			}
+		}
+	}
+	return n, parkedAll, strings.Join(keep, "\n\n")
 }
 
 func c26NewObs(c c26Case) *c26Obs {
@@ -497,21 +597,11 @@ func TestC26(t *testing.T) {
 		"the shutdown sentence is judged on ParallelWorkers only: SerialWorkers has no pool (its Stop is a no-op and jobs run inside Go)",
 		"task backlog >= number of tasks whenever Stop may overtake the submission (documented: Go blocks otherwise)",
 	)
-	hangs := 0
+	hangs, evals := 0, 0
 	judge := func(c c26Case) {
 		r.Eval()
 		o := c26NewObs(c)
-		var done <-chan struct{}
-		panicked := false
-		done = kit.Go(func() {
-			defer func() {
-				if p := recover(); p != nil {
-					panicked = true
-					r.Violation("panic/workers", c, "panic in workers scenario: %v", p)
-				}
-			}()
-			c26Drive(c, o)
-		})
+		done := kit.Go(func() { o.guard("driver", func() { c26Drive(c, o) }) })
 		// A Deadlock verdict is accepted only when two consecutive quiescence
 		// observations both show every driver goroutine parked inside the very
 		// call into internal/workers it had entered.
@@ -540,8 +630,13 @@ func TestC26(t *testing.T) {
 			res = kit.Unknown
 		}
 		finished := res == kit.Returned
-		if finished && panicked {
-			return
+		for _, pv := range o.panicked() {
+			finished = false // the scenario was cut short: only the per-task / per-job facts are judged
+			key := "panic/workers"
+			if strings.HasPrefix(pv, "Workers).NewJob") && c.Stop == "conc" {
+				key = "C26/newjob-concurrent-with-stop-panics"
+			}
+			r.Violation(key, c, "panic inside %s", pv)
 		}
 		finds, st := c26Judge(c, o, finished)
 		switch res {
@@ -589,6 +684,30 @@ func TestC26(t *testing.T) {
 				}
 			}
 		}
+		if finished && !c.Serial && hangs == 0 && evals%8 == 0 {
+			// "Stop returns once all workers exit": every scenario so far has stopped its pool, so no pool
+			// goroutine may stay alive (goroutines on their way out are awaited logically).
+			deadline := time.Now().Add(30 * time.Second)
+			for {
+				n, parked, dump := c26PoolGoroutines()
+				if n == 0 {
+					r.Count("stop_left_no_pool_goroutine_checks", 1)
+					break
+				}
+				if time.Now().After(deadline) {
+					if parked {
+						r.Violation("C26/pool-goroutines-alive-after-stop", c, "%d worker/queue goroutines are still parked although Stop returned for every pool\n%s", n, dump)
+					} else {
+						r.Inconclusive("%d pool goroutines still running 30s after Stop returned", n)
+					}
+					break
+				}
+				time.Sleep(2 * time.Millisecond)
+			}
+		}
+		evals++
+		r.Count("late_jobs_rejected_by_newjob", st.lateRejected)
+		r.Count("late_jobs_accepted", st.lateAccepted)
 		r.Count("tasks_run", st.tasksRun)
 		r.Count("tasks_skipped", st.tasksSkipped)
 		r.Count("jobs_ok", st.jobsOK)
@@ -620,7 +739,7 @@ func TestC26(t *testing.T) {
 		}
 	}
 	rng := r.Rand("scenarios")
-	n := r.N(4000, 120000)
+	n := r.N(3000, 80000)
 	for i := 0; i < n && hangs < 3 && r.Violations() < 20; i++ {
 		c := c26Gen(rng)
 		if i%10 == 9 {
